@@ -109,4 +109,5 @@ def register(reg):
         ensures=["True"], frame=[]))
 
 
-BOUNDED = []
+from contracts import http_native
+BOUNDED = [http_native.bounded_flows]
